@@ -30,6 +30,7 @@ def run(ctx):
     ctx.assumptions += [
         "fault model of the property: one file operation fails with an error, either before any byte is written or after a short write (the hook writes the first half of the buffer); the fault then clears",
         "a failed Close is retried once by the owner before the writer is given up (new FileWriter / new or same chronicler object)",
+        "as built, a load behind appended garbage takes arbitrary bytes for a block header and allocates up to 4 GiB: when the harness sees such a header it runs the real load in a child process limited to 1.5 GiB of address space and counts its out-of-memory death as a failed load",
         "compaction itself is not modelled: a fault inside the temporary file must leave the logical state unchanged (C03 owns compaction)",
     ]
     binary = ctx.go_build("hydfile")
@@ -88,7 +89,7 @@ def run(ctx):
             for k, v in st.items():
                 stats[k] = stats.get(k, 0) + v
     ctx.extra["driver"] = stats
-    res, blocks, st = hc.classify(ctx, tf, fams, "fault")
+    res, blocks, st = hc.classify(ctx, tf, fams, "fault", pairs=thorough)
     n = hc.report(ctx, res, blocks, hists, "fault", "faulted execution", dict(mode="fault"))
     ctx.extra["units"] = n
     ctx.extra["trace"] = st
